@@ -31,7 +31,7 @@ def constructible(type_name, empty, length_key, fmt):
     return True
 
 
-def make(type_name, empty, length_key, allowed_key, fmt, maxlen):
+def make(type_name, empty, length_key, allowed_key, fmt, maxlen, late_allowed=False):
     length_text, length_items = ff.LENGTHS[length_key]
     if fmt == "fixed":
         length_text, length_items = str(ff.FIXED_WIDTH), [(ff.FIXED_WIDTH, ff.FIXED_WIDTH)]
@@ -41,8 +41,17 @@ def make(type_name, empty, length_key, allowed_key, fmt, maxlen):
     def go(cell, hook_ok):
         from cutplace import errors
 
-        df = ff.data_format(fmt, allowed_text)
-        field = ff.build_field(type_name, empty, length_text, rule, df)
+        if late_allowed:
+            # through the real CID loader, the 'allowed characters' row coming AFTER the field row
+            from cutplace import interface
+            with rf.untraced():
+                cid = interface.Cid()
+                cid.read("<harness>", [["d", "format", fmt], ["f", "x", "", "X" if empty else "", length_text, type_name, rule],
+                                       ["d", "allowed characters", allowed_text]])
+                field = cid.field_formats[0]
+        else:
+            df = ff.data_format(fmt, allowed_text)
+            field = ff.build_field(type_name, empty, length_text, rule, df)
         calls = []
         marker = object()
 
@@ -145,6 +154,15 @@ def build(tier, seed):
                                                                                else "3", ff.ALLOWED[ak][0], maxlen),
                              budget_s=300 if tier == "quick" else 1200, per_path_timeout=60, expect=exp, replay=rp,
                              functions=FUNCS, stubs=("type hook validated_value replaced by a recorder", "S-FMT")))
+    for t, e, lk, fmt in (("Text", False, "both", "delimited"), ("Integer", True, "exact", "fixed"), ("Choice", False, "none", "ods")) + (
+            () if tier == "quick" else (("Decimal", True, "upper", "excel"), ("RegEx", False, "exact", "fixed"), ("DateTime", True, "none", "delimited"))):
+        mk, rp = make(t, e, lk, "one", fmt, 3, late_allowed=True)
+        queries.append(Query("C03/%s/%s/empty=%s/len=%s/allowed=one-declared-after-the-field" % (t, fmt, "X" if e else "-", lk),
+                             "guards-late-allowed", mk,
+                             "%s field loaded through Cid.read with the 'allowed characters' row after the field row (%s); cell: "
+                             "every Unicode text of length <= 3" % (t, fmt), budget_s=300, per_path_timeout=60, replay=rp,
+                             expect=reachable_classes(fmt, e, lk, "one", 3), functions=FUNCS + ("cutplace.interface.Cid.read",),
+                             stubs=("type hook validated_value replaced by a recorder", "S-FMT")))
     return dict(queries=queries, warm=("strip",),
                 assumptions=["fixed-width cells that start or end (after blank-stripping) with white space other than "
                              "the blank are outside the claim: the property speaks of blanks, the code strips all white "
